@@ -78,5 +78,8 @@ example : (collect ⟨false, false⟩ ([], [])
     or clause; DESIGN.md §11.6a) -/
 theorem export_skeletons : Skeletons.ExportShape := Skeletons.export_shape
 theorem datum_skeletons : Skeletons.DatumShape := Skeletons.datum_shape
+theorem f_exporter_prometheus_skeletons : Skeletons.F_exporter_prometheusShape := Skeletons.f_exporter_prometheus_shape
+theorem f_datum_datum_skeletons : Skeletons.F_datum_datumShape := Skeletons.f_datum_datum_shape
+theorem f_mtail_mtail_skeletons : Skeletons.F_mtail_mtailShape := Skeletons.f_mtail_mtail_shape
 
 end MtailVerif.C13
